@@ -515,6 +515,22 @@ func stageLifecycleRules(c *core.Ctx, s *Stage, o lifecycleOpts) {
 				st := &p.Steps[i]
 				bk := blockingKind(st)
 				if bk == "" {
+					// a cancel poll - select { case <-ctx.Done(): ...; default: } - states the belief that the goroutine
+					// stops when the context is cancelled: its Done arm must not run on into the loop it polls in
+					// (a `break` there leaves only the select and makes the poll a no-op)
+					if st.Kind == ir.KSelect && !st.Blocking {
+						if d := doneArm(st); d >= 0 && st.Chosen == d {
+							if c.Rules["cancel-poll-exits"] == nil {
+								c.Doc("cancel-poll-exits", 0, "the Done arm of a cancel poll leaves the loop it polls in (a poll that changes nothing is a contradiction)")
+							}
+							site := fmt.Sprintf("%s/poll@%s", pr.name, siteID(c, st))
+							if p.To != nil && ir.LoopBlocks(p.To)[st.Instr.Block()] {
+								c.Fail("cancel-poll-exits", site, st.Pos(), "after the poll observed ctx.Done the goroutine continues with the next iteration of the loop it polls in - the poll has no effect (a `break` inside select leaves only the select):\n%s", p)
+							} else {
+								c.Ok("cancel-poll-exits", site, st.Pos(), "the Done arm leaves the loop")
+							}
+						}
+					}
 					continue
 				}
 				site := fmt.Sprintf("%s/%s@%s", pr.name, bk, siteID(c, st))
